@@ -1003,3 +1003,36 @@ def wfile_write(ex, st, obj, args, kwargs, fr):
     st2 = ex.write_field(st1, obj, 'nwrites', SV(c.term + 1, INT))
     st2 = ex.write_field(st2, obj, 'last', args[0])
     yield st2, NONE_SV
+
+
+@specfunc('slot_len')
+def slot_len(ex, st, lst, k):
+    """length of the k-th item (a tuple / list reference) of a list of references"""
+    t = ex.H(st, 'La.R')[ex.term(lst, 'R')][ex.term(k, 'I')]
+    return SV(ex.H(st, 'Ll')[t], INT)
+
+
+@specfunc('max0')
+def max0(ex, st, x):
+    t = ex.term(x, 'I')
+    return SV(z3.If(t > 0, t, 0), INT)
+
+
+@specfunc('arg')
+def call_arg(ex, st, i):
+    """i-th positional argument of the call a `call_asserts` clause is attached to (None when not given)"""
+    args, kwargs = ex._cur_call
+    return args[i.py] if i.py < len(args) else NONE_SV
+
+
+@specfunc('kwarg')
+def call_kwarg(ex, st, name):
+    args, kwargs = ex._cur_call
+    return kwargs.get(name.py, NONE_SV)
+
+
+@specfunc('dget_any')
+def dget_any(ex, st, d, k):
+    """d[k] for a dict of dynamically typed values given by reference"""
+    a = ex.term(d, 'R')
+    return SV(ex.H(st, 'Dv.V')[a][ex.dict_key(k)], ANY)
